@@ -125,7 +125,7 @@ def run(tier, seed, build=True):
                     cases.append((label, "misnamed", nm, ("asis",)))
         # all short byte strings over a reduced alphabet under each type-selecting name
         alpha = [0x00, 0x0A, 0x30, 0x61, 0x80, 0xFF]
-        lens = [4] if tier == "quick" else [6, 7]
+        lens = [4] if tier == "quick" else [6]
         short_names = ["s.log", "wtmp", "lastlog", "acct", "j.journal", "e.evtx", "s.log.gz", "s.log.xz", "s.log.bz2", "s.log.lz4", "s.tar"]
         if tier == "quick":
             short_names = ["wtmp", "s.log.gz", "j.journal"]
@@ -172,7 +172,13 @@ def run(tier, seed, build=True):
             shutil.rmtree(d, ignore_errors=True)
             return ic, r1, r2, len(blob), big
         nseed_ok = 0
-        for (i, (label, kind, fname, spec)), r1, r2, blen, big in common.pmap(one, list(enumerate(cases))):
+        def chunks():
+            n = 0
+            while n < len(cases):
+                for item in common.pmap(one, [(i, cases[i]) for i in range(n, min(n + 20000, len(cases)))]):
+                    yield item
+                n += 20000
+        for (i, (label, kind, fname, spec)), r1, r2, blen, big in chunks():
             res.count(2)
             res.distinct((label, kind, fname, spec[1:] if spec[0] != "raw" else spec[1]))
             feats = {"seed": label, "fault": kind, "name": fname}
@@ -189,7 +195,7 @@ def run(tier, seed, build=True):
         res.coverage["seeds"] = [s_[0] for s_ in sd]
         res.coverage["rule"] = ("seeds: one small valid file per kind x container (text, 7 accounting layouts, gz/bz2/xz/lz4/tar, utmp.gz, evtx, journal, journal.gz); faults: every truncation length "
                                 "(large formats: every length in the header region + fixed steps + tail), byte replacements {00,FF,^01,^80} at every offset of the magic/header/size/trailer classes (all 256 values "
-                                "for the accounting type field), 2-byte variants, every seed under every other type-selecting name, every byte string of length 6 and 7 over {00,0A,'0','a',80,FF} under type-selecting "
+                                "for the accounting type field), 2-byte variants, every seed under every other type-selecting name, every byte string of length 6 over {00,0A,'0','a',80,FF} under type-selecting "
                                 "names (quick tier: every 4-byte prefix with a fixed tail under 3 names); each fault alone and beside a valid text source; oracle: exit 0/1, no signal, no 'panicked at', < 20 s, neighbour lines intact. "
                                 "distinct_nontrivial = distinct fault cases")
         if tier == "quick":
